@@ -270,23 +270,42 @@ def run_conc(rp, node_spec, pre, reqs, schedule):
                                 gpu_occupation=r['gpu_occ'] / float(U), lfs=r['lfs'], mem=r['mem'])
     node = Node({'name': 'node-0000', 'index': 0, 'cores': [None if c is None else c / float(U) for c in node_spec['cores']],
                  'gpus': [None if g is None else g / float(U) for g in node_spec['gpus']], 'lfs': node_spec['lfs'], 'mem': node_spec['mem']})
-    for r in pre:
-        node.find_slot(mk_rr(r))
+    pre_slots = [node.find_slot(mk_rr(r)) for r in pre]
     got = [[] for _ in reqs]
-    if schedule is None:
-        # sequentially, in the order of `reqs`
-        for k, rs in enumerate(reqs):
-            for r in rs:
-                s = node.find_slot(mk_rr(r)); got[k].append(slot_canon(s) if s else None)
+    def do(k, r):
+        if 'release' in r:
+            # give back what the i-th earlier request holds (if it was granted)
+            sl = pre_slots[r['release']] if r['release'] < len(pre_slots) else None
+            if sl is not None: node.deallocate_slot(sl)
+            got[k].append('released' if sl is not None else 'nothing')
+        else:
+            s = node.find_slot(mk_rr(r)); got[k].append(slot_canon(s) if s else None)
+    if isinstance(schedule, tuple):
+        # one call after the other, in the order `schedule` names the threads (a merge of the threads' calls)
+        nxt = [0] * len(reqs)
+        for k in schedule:
+            r = reqs[k][nxt[k]]; nxt[k] += 1
+            do(k, r)
         return got, state_of(node), None
     lock = coop.CoopRLock()
     node.__lock__ = lock
     ctl = coop.Controller()
     def body(k):
         def fn():
-            for r in reqs[k]:
-                s = node.find_slot(mk_rr(r)); got[k].append(slot_canon(s) if s else None)
+            for r in reqs[k]: do(k, r)
         return fn
+    # a change of what is free on the node made WITHOUT the node's lock is a point at which the other thread may run
+    # (between the read and the write of `self.lfs += ...`); under the lock there is none
+    from radical.pilot.resource_config import RO
+    saved = (Node.__setattr__, RO.__setattr__)
+    def guarded(orig):
+        def setattr_(self, k, v):
+            if k in ('lfs', 'mem', 'occupation') and getattr(coop._local, 'worker', None) is not None \
+               and lock.owner is not coop._local.worker:
+                coop.point('unlocked-write')
+            return orig(self, k, v)
+        return setattr_
+    Node.__setattr__, RO.__setattr__ = guarded(saved[0]), guarded(saved[1])
     done = []
     try:
         for k in range(len(reqs)):
@@ -302,12 +321,27 @@ def run_conc(rp, node_spec, pre, reqs, schedule):
         fin = all(w.done for w in ctl.workers.values())
     finally:
         ctl.close()
+        Node.__setattr__, RO.__setattr__ = saved
     node.__lock__ = None
     return got, state_of(node), {'done': done, 'errors': errs, 'finished': fin}
 
 
 def state_of(node):
     return {'cores': [occ(ro.occupation) for ro in node.cores], 'gpus': [occ(ro.occupation) for ro in node.gpus], 'lfs': node.lfs, 'mem': node.mem}
+
+
+def merges(reqs):
+    """every order of the calls that keeps each thread's own order"""
+    import itertools
+    n0, n1 = len(reqs[0]), len(reqs[1])
+    out = []
+    for pos in itertools.combinations(range(n0 + n1), n0):
+        out.append(tuple(0 if i in pos else 1 for i in range(n0 + n1)))
+    return out
+
+
+def seq_outcomes(rp, spec, pre, reqs):
+    return [run_conc(rp, spec, pre, reqs, m)[:2] for m in merges(reqs)]
 
 
 def gen_conc(rng):
@@ -318,8 +352,18 @@ def gen_conc(rng):
     def rr():
         return {'n_cores': rng.choice([1, 1, 2, nc]), 'core_occ': rng.choice([U, U, 8]), 'n_gpus': rng.choice([0, 1]) if ng else 0,
                 'gpu_occ': rng.choice([U, 8, 10]), 'lfs': rng.choice([0, 60]) if lfs else 0, 'mem': rng.choice([0, 40]) if mem else 0}
-    pre  = [rr() for _ in range(rng.choice([0, 0, 1]))]
-    reqs = [[rr() for _ in range(rng.choice([1, 1, 2]))] for _ in range(2)]
+    pre  = [rr() for _ in range(rng.choice([0, 0, 1, 2]))]
+    def op():
+        # a request, or the release of what an earlier request holds
+        return {'release': rng.randrange(len(pre))} if pre and rng.random() < 0.35 else rr()
+    reqs = [[op() for _ in range(rng.choice([1, 1, 2]))] for _ in range(2)]
+    # (one slot is released at most once)
+    seen = set()
+    for rs in reqs:
+        for i, r in enumerate(rs):
+            if 'release' in r:
+                if r['release'] in seen: rs[i] = rr()
+                seen.add(r['release'])
     return spec, pre, reqs
 
 
@@ -335,8 +379,8 @@ def conc_monitor(spec, pre, reqs, got, final, info, seq):
     if (final['lfs'] is not None and final['lfs'] < 0) or (final['mem'] is not None and final['mem'] < 0):
         bad.append(('nodelist:lfs-or-mem-oversubscribed:two-threads', 'lfs %s mem %s left' % (final['lfs'], final['mem'])))
     if not any(got == g and final == f for g, f in seq):
-        bad.append(('nodelist:concurrent-find-slot-is-not-one-of-the-two-orders', 'the threads were given %s, the node shows %s; one after the other '
-                    '(either order) they get %s' % (got, final, [g for g, f in seq])))
+        bad.append(('nodelist:concurrent-find-slot-is-no-order-of-the-calls', 'the threads were given %s, the node shows %s; the calls one after the other '
+                    '(in any order that keeps each thread\'s own) give %s' % (got, final, [g for g, f in seq])))
     return bad
 
 
@@ -348,10 +392,7 @@ def run_concurrent(ctx):
     nsched = 0
     cases = [copy.deepcopy(c) for c in CONC_CORPUS] + [gen_conc(rng) for _ in range(ctx.n(12, 400))]
     for spec, pre, reqs in cases:
-        seq = []
-        for order in ([0, 1], [1, 0]):
-            g, f, _ = run_conc(rp, spec, pre, [reqs[k] for k in order], None)
-            seq.append(([g[order.index(k)] for k in range(2)], f))
+        seq = seq_outcomes(rp, spec, pre, reqs)
         seen = set()
         for sched in itertools.product([0, 1], repeat=5):
             got, final, info = run_conc(rp, spec, pre, reqs, list(sched))
@@ -362,13 +403,16 @@ def run_concurrent(ctx):
             for sig, what in conc_monitor(spec, pre, reqs, got, final, info, seq):
                 ctx.fail(sig, what, {'script': None, 'conc': {'spec': spec, 'pre': pre, 'reqs': reqs, 'schedule': info['done']}})
     ctx.obligation('two application threads on one node: every interleaving of the lock acquisitions of the real Node.find_slot gives what '
-                   'one of the two sequential orders gives (%d cases, %d distinct schedules)' % (len(cases), nsched), 'tie', nsched > 0, '')
+                   'the calls give one after the other in some order that keeps each thread\'s own (%d cases, %d distinct schedules)' % (len(cases), nsched), 'tie', nsched > 0, '')
     ctx.assume += ['two threads on one Node (the lock the property relies on is per node); the only scheduling points are the acquisitions of '
                    'the node lock - code between two acquisitions is atomic in the harness; NodeList.find_slots keeps its cursor without a '
                    'lock and is exercised sequentially only']
 
 
 CONC_CORPUS = [
+    # a release (100 of lfs come back) while another thread is granted lfs on the same node
+    ({'cores': [0, 0, 0, 0], 'gpus': [], 'lfs': 100, 'mem': 64}, [{'n_cores': 1, 'core_occ': 16, 'n_gpus': 0, 'gpu_occ': 16, 'lfs': 60, 'mem': 40}],
+     [[{'release': 0}], [{'n_cores': 1, 'core_occ': 16, 'n_gpus': 0, 'gpu_occ': 16, 'lfs': 30, 'mem': 16}]]),
     ({'cores': [0, 0], 'gpus': [0], 'lfs': 100, 'mem': 64}, [],
      [[{'n_cores': 2, 'core_occ': 16, 'n_gpus': 1, 'gpu_occ': 10, 'lfs': 60, 'mem': 40}],
       [{'n_cores': 2, 'core_occ': 16, 'n_gpus': 1, 'gpu_occ': 10, 'lfs': 60, 'mem': 40}]]),
@@ -379,10 +423,7 @@ def replay(ctx, data, prop):
     rp = rpload.load()
     if data['input'].get('conc'):
         c = data['input']['conc']
-        seq = []
-        for order in ([0, 1], [1, 0]):
-            g, f, _ = run_conc(rp, c['spec'], c['pre'], [c['reqs'][k] for k in order], None)
-            seq.append(([g[order.index(k)] for k in range(2)], f))
+        seq = seq_outcomes(rp, c['spec'], c['pre'], c['reqs'])
         got, final, info = run_conc(rp, c['spec'], c['pre'], c['reqs'], c['schedule'])
         bad = conc_monitor(c['spec'], c['pre'], c['reqs'], got, final, info, seq)
         print(got, final, info); print(bad)
